@@ -15,5 +15,11 @@ func TestWorker(t *testing.T) {
 		"C03/paths": runPaths,
 		"C07/paths": runPaths,
 		"C22/paths": runPaths,
+		"C01/tamper": runTamper,
+		"C01/expiry": runExpiry,
+		"C04/tamper": runTamper,
+		"C07/scmp":   runSCMP,
+		"C09/scmp":   runSCMP,
+		"C10/scmp":   runSCMP,
 	}})
 }
